@@ -27,11 +27,12 @@ try:
     if not skip_tests and not base_file.exists():
         b, tail = failed_tests(wt)
         base_file.write_text(json.dumps(b))
-    r0 = sh(f"{PY} {os.path.abspath(demo)}", cwd=wt)
+    shutil.copy(demo, wt / "_demo.py")
+    r0 = sh(f"{PY} _demo.py", cwd=wt)
     a = sh(f"git apply {os.path.abspath(patch)}", cwd=wt)
     if a.returncode != 0:
         print("patch does not apply:", a.stderr); sys.exit(2)
-    r1 = sh(f"{PY} {os.path.abspath(demo)}", cwd=wt)
+    r1 = sh(f"{PY} _demo.py", cwd=wt)
     ok_demo = (r0.returncode == 0 and r1.returncode != 0)
     new_fail = None
     if not skip_tests:
